@@ -79,9 +79,17 @@ func adataLit(attrs map[string][][]float64) string {
 }
 
 func plyCase(d plyDesc) hx.Case {
-	c := hx.Case{Kind: "ply", Desc: d, Nontriv: d.N >= 1 && len(d.Attrs) >= 2}
-	c.Key = fmt.Sprintf("p|%v", d)
-	m := buildPlyCloud(d)
+	return plyCaseWith("ply", d, d, buildPlyCloud(d))
+}
+
+// plyCaseWith: SplatPly.Write + ply.ReadMesh of mesh m, whose table attributes hold the values of d (m may come
+// from another codec's reader and carry attributes outside the SplatPly table, which are not written).
+func plyCaseWith(kind string, desc interface{}, d plyDesc, m modeling.Mesh) hx.Case {
+	c := hx.Case{Kind: kind, Desc: desc, Nontriv: d.N >= 1 && len(d.Attrs) >= 2}
+	c.Key = fmt.Sprintf("%s|%v", kind, d)
+	if kind == "ply" {
+		c.Key = fmt.Sprintf("p|%v", d)
+	}
 	var buf bytes.Buffer
 	var werr error
 	func() {
@@ -152,6 +160,9 @@ func plyCase(d plyDesc) hx.Case {
 		}
 	} else {
 		rm := *r.m
+		if f := shapeCheck("ply.ReadMesh", out, true, meshDigest(rm), ply.ReadMesh); f != "" && c.GoFail == "" {
+			c.GoFail, c.FailKey = f, "splatply:reader-shape"
+		}
 		chk := func(x float64) {
 			if finite(x) && float64(float32(x)) != x && c.GoFail == "" {
 				c.GoFail, c.FailKey = fmt.Sprintf("read back %v which is not a float32 value", x), "splatply:not-float32"
